@@ -23,7 +23,7 @@ def plan(tier):
         Q(P, 6, [], second=['***'], wit=W2[:2]),
     ]
     if th:
-        qs += [Q(P, 1, ['***'], second=['***'], wit=W2, **H), Q(P, 2, ['***'], second=['***'], wit=W2, **H), Q(P, 3, ['***', '**'], second=['***', '**'], wit=W2, **H),
+        qs += [Q(P, 1, ['***'], second=['***'], wit=W2, **H), Q(P, 2, ['***'], second=['***'], wit=W2, **H), Q(P, 3, ['***', '**'], second=['-o', 'v', '--m=w'], wit=W2[1:2], **H),
                Q(P, 6, ['***'], second=['***'], wit=W2, **H), Q(P, 12, ['***'], second=['***'], wit=W2, **H), Q(P, 7, ['***'], second=['***'], env={0: '**'}, wit=W2, **H)]
     corpus = [rt_entry(1, t, P, second=s) for t, s in ((['--o', 'v'], ['--o', 'v']), (['-x'], ['-xx']), (['-z'], ['-x']), (['-x'], ['-z']), (['--m=a'], ['--m=b']), (['p'], ['q', 'r']), ([], ['-p=1']))] + \
              [rt_entry(2, t, P, second=s) for t, s in ((['--a'], ['--no-a']), (['--no-a'], ['--a']), (['--o=v'], []), ([], ['--o=v']))] + \
